@@ -42,6 +42,21 @@ func Families(family string, seed int64, count int) []Driver {
 			out = append(out, newWorkload(name, s, workloadOpts{cfg: cfg, nRPC: 1 + rng.Intn(3), disturb: "cancel", volume: i%3 == 0, meta: i%2 == 0}))
 		case "shutdown":
 			out = append(out, newWorkload(name, s, workloadOpts{cfg: cfg, nRPC: 1 + rng.Intn(3), disturb: "shutdown"}))
+		case "term0":
+			// revision zero, a consumer that never reads (the receive loop ends up parked in the
+			// one-slot hand-off), then a termination cause
+			c := []Config{{Mode: "fwd", CDisable: true}, {Mode: "rev", SDisable: true}, {Mode: "fwd", SDisable: true}, {Mode: "rev", CDisable: true}}[i%4]
+			d := []string{"ctxend", "fail", "chclose", "stop"}[(i/4)%4]
+			if d == "stop" && c.Mode != "rev" {
+				d = "ctxend"
+			}
+			out = append(out, newWorkload(name, s, workloadOpts{cfg: c, nRPC: 1 + rng.Intn(2), noReader: true, streamingOnly: true, disturb: d}))
+		case "blocked":
+			// flow control, a consumer that never reads so that the peer's sender blocks on its
+			// window, then that RPC is cancelled or the tunnel ends
+			c := fcConfigs()[i%2]
+			d := []string{"cancel", "cancel", "fail", "chclose", "ctxend"}[i%5]
+			out = append(out, newWorkload(name, s, workloadOpts{cfg: c, nRPC: 1 + rng.Intn(3), noReader: true, streamingOnly: true, disturb: d}))
 		case "nohol":
 			c := fcConfigs()[i%2]
 			out = append(out, newWorkload(name, s, workloadOpts{cfg: c, nRPC: 2 + rng.Intn(2), noReader: true, streamingOnly: true}))
